@@ -12,6 +12,7 @@ LEVEL = {
  'C05': ("proof", "Foreign delete / pose update behaviours are proved to refuse (or drop) and leave the world unchanged; the owner field is set only at creation and participant ids are strictly increasing (C10).", "§10 C05"),
  'C06': ("proof", "leaveSession's postcondition over the whole view (entities, components, subscriptions, members, one delete relay per removed entity via content-keyed event counters, one leave relay) is proved with an inductive invariant over the departing participant's entity-id set.", "§10 C06"),
  'C07': ("proof", "Registry operations (Add/Remove/GetByGlobalID) are proved against a registry invariant (key = gid(id), ids live, gauge total); join success registers the session and the participant, last leave unregisters and closes.", "§10 C07"),
+ 'C08': ("proof", "(i) no-panic obligations (nil dereference, index, division, nil-map write, type assertion, negative make) for every function under contract with all straight-line callees inlined, over unconstrained decoded messages; (ii) the connection loop: every iteration's events match the declared alternatives (idle timer reset before each handled message, failures lead to disconnect) and handleDisconnect runs exactly once before the loop exits (inductive invariant over the cancel flag); (iii) no blocking channel send in the loop's failure path; (iv) the connected-clients gauge is incremented once on connect and decremented once on disconnect on the same labels. The dagaz grid internals are covered only by a bounded stand-in (listed concrete inputs), labelled bounded.", "§10 C08"),
  'C09': ("proof", "Lock discipline as a sufficient condition for data-race freedom on the declared fields and for deadlock freedom among the mutexes: every access to a guarded_by field in every function of models, websocket, modules, featureflag, receipt and http is proved to happen with its mutex held in a sufficient mode (or inside sync.Once.Do, or on an object still under construction), every acquisition respects the global level order (also through contracted callees and callbacks), and every function returns with the locks it entered with. Holds for all schedules and any number of connections.", "§10 C09"),
  'C10': ("proof", "SequentialIDGenerator.New/Reuse against the defined live-set view; monotone generators never reissue; type registration ids; new session ids are not live before.", "§10 C10"),
  'C11': ("proof", "HandleEntityUpdatePose behaviours (unknown, foreign, no pose: dropped with no effect; otherwise stored pose equals the update and one relay carries it); timing and coalescing are outside the technique.", "§10 C11"),
@@ -23,6 +24,7 @@ LEVEL = {
  'C17': ("proof", "Every relay in every handler behaviour is a conditional event guarded by exactly its own flag; the obligations are proved with the flag set an arbitrary map, i.e. for all 1024 subsets and any unknown names at once.", "§10 C17"),
  'C18': ("proof", "HandleSignedLatency starts a measurement only for a joined participant, 3..50 rounds, non-empty wallet; OnPing behaviours from the property (unknown or already answered id: refused, nothing changes; otherwise exactly one further ping or exactly one response); the response's Signature is hex(Sign(Keccak(Data), key)) of exactly the Data field; Data is the marshaled LatencyData naming client, session UUID, wallet, exactly the issued ping ids; statistics: min <= max, every round within [min,max], last = final round, p95 within.", "§10 C18"),
  'C19': ("proof", "HandleReceipt behaviours (empty field, accepted = exactly one enqueue of the unchanged payload and one response, queue full) are proved; the non-blocking select is modelled as a ready/not-ready choice; VerifyPayload returns nil exactly for well-formed payloads; the receipts worker forwards each dequeued payload exactly once iff it is well formed, unchanged; ForwardToNCS posts it once.", "§10 C19"),
+ 'C20': ("proof", "Only the retention and sharing clauses are claimed: dagaz.Module.Init creates the spatial partition once per session and never replaces an existing one, all participants share it through the session's module state, every quad sample is inserted into that partition and each query answers once from it. Index completeness and the geometric primitives are not applicable to this technique (see not_covered).", "§10 C20"),
 }
 NOTE = "Assumed contracts of dependencies (protobuf decode/encode, errors, sync, time, uuid, fmt), sequential handler-atomic histories (A-seq), trusted clauses and the assumptions listed in the evidence file; soundness of hvc, go/ssa and the SMT solvers."
 
